@@ -74,7 +74,7 @@ var $flushConsole = () => { };
 var $throwRuntimeError; /* set by package "runtime" */
 var $throwNilPointerError = () => { $throwRuntimeError("invalid memory address or nil pointer dereference"); };
 var $call = (fn, rcvr, args) => { return fn.apply(rcvr, args); };
-var $makeFunc = fn => { return function(...args) { return $externalize(fn(this, new ($sliceType($jsObjectPtr))($global.Array.prototype.slice.call(args, []))), $emptyInterface); }; };
+var $makeFunc = fn => { $checkForDeadlock = false; return function(...args) { return $externalize(fn(this, new ($sliceType($jsObjectPtr))($global.Array.prototype.slice.call(args, []))), $emptyInterface); }; };
 var $unused = v => { };
 var $print = console.log;
 // Under Node we can emulate print() more closely by avoiding a newline.
